@@ -110,9 +110,24 @@ func (interp *Interpreter) gta(root *node, rpath, importPath, pkgName string) ([
 			return false
 
 		case defineXStmt:
-			if src := n.lastChild(); src.kind == callExpr {
-				if typ, err2 := nodeType(interp, sc, src.child[0]); err2 != nil || typ == nil || !typ.isComplete() {
-					// The called function is not declared yet: come back when it is.
+			// The types of the variables come from the type of an operand of the source:
+			// the called function, the map, the channel, or the asserted type.
+			var operand *node
+			switch src := n.lastChild(); {
+			case src.kind == callExpr, src.kind == indexExpr, src.kind == unaryExpr && src.action == aRecv:
+				operand = src.child[0]
+			case src.kind == typeAssertExpr:
+				operand = src.child[1]
+			}
+			if operand != nil {
+				if typ, err2 := nodeType(interp, sc, operand); err2 != nil || typ == nil || !typ.isComplete() {
+					// The operand is not declared yet: come back when it is.
+					if err2 == nil && typ != nil {
+						err2 = definedType(typ)
+					}
+					if err2 == nil {
+						err2 = operand.cfgErrorf("undefined type")
+					}
 					n.meta = err2
 					revisit = append(revisit, n)
 					return false
